@@ -1,6 +1,7 @@
 package lab
 
 import (
+	"strings"
 	"fmt"
 	"sync"
 	"time"
@@ -49,7 +50,7 @@ func (c c16Cfg) wantIdle() uint32 {
 
 func CheckC16(l *Lab, verifDir string) int {
 	rep := NewReport("C16", l.Tier, l.Seed, "exploration", verifDir)
-	rep.Rule = "hosts that send a banner right after accept (with a delay point in front of the gateway's transport write): the packet answering channel-create must still be the channel response and the banner must follow as DATA; one gateway process per configuration: all 2^7 redirect switch combinations x idle timeouts {-2^31,-1,0,1,10,2^31-1} (full product; server capability setting cycling in quick, all four in thorough); per gateway a fixed set of histories reaching every outcome (accepted, each wrong phase, capability mismatch, rejected cookie, denied host, unreachable host, close, host data) on both transports; every packet the gateway sent is decoded by the lab's independent strict MS-TSGU decoder and compared with the reference encoder of the statement. non-trivial = at least one response decoded; distinct = configuration x history x response sequence"
+	rep.Rule = "hosts that send a banner right after accept (with a delay point in front of the gateway's transport write): the packet answering channel-create must still be the channel response and the banner must follow as DATA; one gateway process per configuration: all 2^7 redirect switch combinations x idle timeouts {-2^31,-1,0,1,10,2^31-1} (full product; server capability setting cycling in quick, all four in thorough); per gateway a fixed set of histories reaching every outcome (accepted, each wrong phase, capability mismatch, rejected cookie, denied host, unreachable host, close, host data) on both transports; on a gateway whose policy allows any host: channel-creates for hosts that cannot be connected for different reasons (unresolvable and malformed names, over-long labels, closed port, port 0, malformed address literal) must be answered with a non-zero status; every packet the gateway sent is decoded by the lab's independent strict MS-TSGU decoder and compared with the reference encoder of the statement. non-trivial = at least one response decoded; distinct = configuration x history x response sequence"
 	rep.SetExhaustive(true)
 	idles := []int{-2147483648, -1, 0, 1, 10, 2147483647}
 	var cfgs []c16Cfg
@@ -87,6 +88,7 @@ func CheckC16(l *Lab, verifDir string) int {
 	close(jobs)
 	wg.Wait()
 	c16Greeting(l, rep, idp)
+	c16UndialableHosts(l, rep)
 	return rep.Finish(100)
 }
 
@@ -332,5 +334,82 @@ func c16Greeting(l *Lab, rep *Report, idp *IdP) {
 	f.H1.SetGreeting(nil)
 	if fl := f.GW.Faults(); len(fl) > 0 {
 		rep.Violate("C16/gateway-fault", "runtime fault in the gateway log: "+fl[0], f.GW.FaultContext(3000))
+	}
+}
+
+// c16UndialableHosts: the policy allows any host; none of these can be connected, each for a different
+// reason inside the dialer (resolver errors carry no errno, refused / unreachable ones do). The channel
+// response must say so: a zero status would report a channel that does not exist.
+func c16UndialableHosts(l *Lab, rep *Report) {
+	f, err := l.NewFixture(FixtureOpts{Kind: "ntlm", Mutate: func(c *GWConfig) { c.HostSelection = "any" }})
+	if err != nil {
+		rep.Inconclusive("undialable-hosts fixture: " + err.Error())
+		return
+	}
+	defer f.Close()
+	dead, err := ReservePort()
+	if err != nil {
+		rep.Inconclusive("reserve port: " + err.Error())
+		return
+	}
+	type target struct {
+		why  string
+		host string
+		port uint16
+	}
+	ts := []target{
+		{"unresolvable name", "no-such-host.invalid", 3389},
+		{"name with a space", "no such host", 3389},
+		{"label of 70 characters", strings.Repeat("a", 70) + ".invalid", 3389},
+		{"name of 300 characters", strings.Repeat("abcdefghi.", 30), 3389},
+		{"empty label", "a..invalid", 3389},
+		{"closed port", "127.0.0.1", uint16(dead.Port)},
+		{"port 0", "127.0.0.1", 0},
+		{"malformed address literal", "300.1.2.3", 3389},
+	}
+	W := 15 * time.Second
+	for _, tr := range Transports() {
+		for _, tg := range ts {
+			env := f.Env(tr)
+			env.W = W
+			t, _, err := env.OpenTunnel(NewConnID("ud"))
+			if err != nil || t == nil {
+				rep.Inconclusive(fmt.Sprintf("undialable hosts: open: %v", err))
+				continue
+			}
+			steps := [][]byte{f.SymHS(true).Wire, f.SymTC("none", "").Wire, f.SymTA().Wire, ChannelCreate(tg.host, tg.port)}
+			var st uint32
+			answered := true
+			for i, wire := range steps {
+				t.Send(wire)
+				if n, _ := t.WaitPackets(i+1, W); n < i+1 {
+					answered = false
+					break
+				}
+				st, _ = LenientStatus(t.Snapshot().Packets[i].Raw)
+				if i < 3 && st != 0 {
+					answered = false
+					break
+				}
+			}
+			snap := t.Snapshot()
+			t.Close()
+			if !answered {
+				if len(snap.Packets) >= 3 {
+					// the tunnel ended instead of answering: not a false report
+					rep.Eval(HashStr("undialable", tr, tg.why, "ended"))
+				} else {
+					rep.Inconclusive(fmt.Sprintf("undialable hosts: setup step not answered (%s, %s)", tg.why, tr))
+				}
+				continue
+			}
+			rep.Eval(HashStr("undialable", tr, tg.why, st))
+			rep.Count("undialable_host_probes", 1)
+			if st == 0 {
+				rep.Violate("C16/success-reported-for-unconnected-channel/"+tr, fmt.Sprintf("channel create for %q port %d (%s), which cannot be connected, was answered with status 0", tg.host, tg.port, tg.why), map[string]any{"trace": snap.Log})
+			} else if _, derr := DecodeResponse(snap.Packets[3].Raw); derr != nil {
+				rep.Violate("C16/malformed-response/undialable-host/"+tr, fmt.Sprintf("%s: %v", tg.why, derr), map[string]any{"trace": snap.Log})
+			}
+		}
 	}
 }
